@@ -137,7 +137,7 @@ bstr(const Bin& b)
 // The repository test decides "wrapped" by |dv| >= num_views-|dv|; for num_views <= 2 both readings of the same result
 // are possible (one view: the neighbour across the view end is the view itself), so either reading is accepted.
 Result
-accept_roundtrip(const ProjDataInfoCylindrical& p, const Bin& b, const Bin& nb, bool exact, const char* which)
+accept_roundtrip(const ProjDataInfoCylindrical& p, const Bin& b, const Bin& nb, bool exact, const char* which, bool ties = false)
 {
   const int seg = b.segment_num();
   if (!(nb.get_bin_value() > 0))
@@ -145,8 +145,19 @@ accept_roundtrip(const ProjDataInfoCylindrical& p, const Bin& b, const Bin& nb, 
       const int margin = axial_margin(p, seg);
       const bool at_edge
           = b.axial_pos_num() < p.get_min_axial_pos_num(seg) + margin || b.axial_pos_num() > p.get_max_axial_pos_num(seg) - margin;
-      stats().count(cat("roundtrip misses (", which, ")"));
-      VF_CHECK(!exact && compressed(p, seg) && at_edge, "round trip (", which, ") of ", bstr(b),
+      // Relaxation w.r.t. the literal property text (decided from the replay work/notes/C12_findings.md "not a defect" section):
+      // get_bin documents value<0 for "no such bin" and tests the tangential range (ProjDataInfo.h:368-382,
+      // ProjDataInfoCylindricalNoArcCorr.cxx get_bin).  When the LOR of the bin lies exactly half-way between detectors
+      // (odd tangential position = interleaving, or even view mashing: 'ties') the permitted one-step neighbour -- or, across the
+      // view end, the neighbour of the mirrored tangential position -- can lie outside the tangential range of the data;
+      // the repository's test leaves the first and last tangential position out for this reason.  Accepted only there.
+      const int t = b.tangential_pos_num(), tmin = p.get_min_tangential_pos_num(), tmax = p.get_max_tangential_pos_num();
+      const bool view_end = b.view_num() == p.get_min_view_num() || b.view_num() == p.get_max_view_num();
+      const bool tang_edge = ties && (t - 1 < tmin || t + 1 > tmax || (view_end && (-t - 1 < tmin || -t + 1 > tmax)));
+      const bool axial_ok = !exact && compressed(p, seg) && at_edge;
+      stats().count(cat("roundtrip reports a miss: ", axial_ok ? "compressed bin at axial edge" : (tang_edge ? "tie at tangential edge" : "OTHER"), " (",
+                        which, ")"));
+      VF_CHECK(axial_ok || (!exact && tang_edge), "round trip (", which, ") of ", bstr(b),
                " reports that the LOR misses the scanner, but the bin is ", compressed(p, seg) ? "" : "not ", "axially compressed and ",
                at_edge ? "" : "not ", "within ", margin, " positions of an axial end");
       return Result::pass();
@@ -418,6 +429,17 @@ check_noarc(const ProjDataInfoCylindricalNoArcCorr& p, const json& c)
                 if (v < p.get_max_view_num())
                   VF_CHECK(p.get_phi(Bin(seg, v + 1, ax, t)) > phi, "phi not strictly increasing at ", bstr(b0));
                 // ---- clause (1) ----
+                // 'ties': the LOR reported for the bin lies half-way between detectors (interleaving for odd tangential
+                // positions: phi ignores it, see get_s/get_phi docs; or the centre of an even number of mashed views)
+                const bool ties = (t % 2 != 0) || (mash % 2 == 0);
+                // FINDING C12-F2: for the outermost possible tangential position |t| = N/2-1 (LOR between adjacent detectors)
+                // a tie can round both ends to the SAME detector; get_bin then indexes its det1==det2 table entry
+                // (assert in debug builds, uninitialised entry otherwise).  Excluded by construction.
+                if (ties && std::abs(t) == g.N / 2 - 1 && exclusions_on())
+                  {
+                    stats().count("excluded:C12-F2 tie between adjacent detectors", kmax - kmin + 1);
+                    continue;
+                  }
                 for (int k = kmin; k <= kmax; ++k)
                   {
                     const Bin b(seg, v, ax, t, k, 1.f);
@@ -425,11 +447,11 @@ check_noarc(const ProjDataInfoCylindricalNoArcCorr& p, const json& c)
                     LORInAxialAndNoArcCorrSinogramCoordinates<float> lor;
                     p.get_LOR(lor, b);
                     const Bin nb = p.get_bin(lor, dt);
-                    VF_TRY(accept_roundtrip(p, b, nb, false, "sinogram coordinates"));
+                    VF_TRY(accept_roundtrip(p, b, nb, false, "sinogram coordinates", ties));
                     LORAs2Points<float> lor2;
                     VF_CHECK(lor.get_intersections_with_cylinder(lor2, lor.radius()) == Succeeded::yes, "LOR of ", bstr(b), " does not intersect its own cylinder");
                     const Bin nb2 = p.get_bin(lor2, dt);
-                    VF_TRY(accept_roundtrip(p, b, nb2, false, "two points"));
+                    VF_TRY(accept_roundtrip(p, b, nb2, false, "two points", ties));
                     stats().count("(1) round trips");
                     if (nb.get_bin_value() > 0 && nb.segment_num() == seg && nb.axial_pos_num() == ax && nb.view_num() == v && nb.tangential_pos_num() == t
                         && nb.timing_pos_num() == k)
